@@ -460,6 +460,11 @@ func newBucketStorage(
 	htype histogramType,
 	buckets Buckets,
 ) bucketStorage {
+	// Keep a private copy of the specification: the caller may reuse its slice
+	// for another bucket set, which must not change what the cache compares
+	// later requests against.
+	buckets = copyBuckets(buckets)
+
 	var (
 		pairs   = BucketPairs(buckets)
 		storage = bucketStorage{
@@ -476,6 +481,16 @@ func newBucketStorage(
 	}
 
 	return storage
+}
+
+func copyBuckets(buckets Buckets) Buckets {
+	switch b := buckets.(type) {
+	case ValueBuckets:
+		return append(ValueBuckets(nil), b...)
+	case DurationBuckets:
+		return append(DurationBuckets(nil), b...)
+	}
+	return buckets
 }
 
 type bucketCache struct {
